@@ -13,6 +13,8 @@ V = [
     {"a b": 1, "a_b": 2}, {"class": 1}, {"a": 2, "b": 1}, {"1": 1},
     # the empty member name, alone and after another member; numbers far from the small keyword parameters
     {"": 1}, {"a": 1, "": 2}, 1000000000.25, 30000000001, 4503599627370497, 9007199254740993, 2 ** 1023, -(2 ** 1023), -1000000000.25, "a" * 40, list(range(12)),
+    # strings that are not in Unicode normal form: 2 code points composing to 1, and 1 code point decomposing to 2
+    "e\u0301", "\u0958", {"e\u0301": 1},
 ]
 
 # a smaller probe set for histories / schedules (one witness per JSON type + lookalikes)
@@ -61,6 +63,7 @@ V_OBJ = [
     {"a": 1, "b": 2, "c": 3}, {"a": 1, "c": 3}, {"c": 1, "a": 2, "b": 3}, {"d": 1},
     [1, "a"], [1, "a", 2], [1, "a", "b"], [1], ["a", 1], [[1.5, 2], []], [1, True], [1, True, None], [3, 1], [1, 1],
     [{"a": 1, "b": "s"}], [{"inner": {"w": "x"}}],
+    {"default": 1, "const": {"type": "t"}, "enum": ["a"], "items": True, "title": 1}, {"default": 1}, {"default": -1, "const": {}}, {"const": {"type": 1}}, {"enum": [1]}, {"enum2": "x"}, {"const": {}, "default": 0, "items": {"type": "t"}}, {"items": {"type": 1}},
     [1, 2.5], [{"class": 1, "a b": "x"}], [[1, 2], [3.5]], {"a": 1, "": 2, "sx": "v"}, {"zz": 3, "": 1},
     {"cfg": {}}, {"cfg": {"x": 1}, "other": {}}, {"tag": "t"}, {"legacy": 1},
     {"num": 1}, {"num": 2, "base": {"a": 5}, "sub": {"class": 1}}, {"num": 1.5, "sub": {}}, {"n": 3, "o": {"x y": 2}}, {"n": 3, "o": {}}, {"n": -1},
